@@ -251,8 +251,82 @@ def single_return(v):
     if len(b) > 1 and b[-1][0] == 'ret' and all(st[0] in ('decl', 'expr') for st in b[:-1]):
         # a result built up in a local (`V r(e0); r += e1; ...; return r;`): the returned value by forward substitution.
         # `r op= e` is read as `r = r op e`, which is what R-C04-2 establishes for the compound operators of vec_t.
-        return straightline(b, getattr(v, 'fields_of', None), v.byref)
+        t = straightline(b, getattr(v, 'fields_of', None), v.byref)
+        if t is not None:
+            return t
+    if len(b) > 1 and b[-1][0] == 'ret' and any(st[0] in ('for', 'expr') for st in b[:-1]):
+        return componentwise(v)
     return None
+
+
+def componentwise(v):
+    """the value returned by a body that fills a local vec_t component by component - a constant-trip loop over `r[i] = e(i)`, or
+    `std::transform(p, p + N, q, f)` over the pointer views of an operand and of the local - as `V(e_x, e_y, ...)`; None if the
+    body is not of that kind.  v[k] and ((T *)v)[k], k < N, denote component k (operator[] and the pointer view are the subject of
+    R-C04-5 index-base / pointer-base, the contiguity of the fields of the layout witness)."""
+    from fractions import Fraction
+    f = v.f
+
+    def shape_of(base):
+        if base[0] == 'p' and base[1] < len(f['params']):
+            return vecshape(f['params'][base[1]]['ct'])
+        if base[0] == 'v':
+            return vecshape(types.get(base[1]) or '')
+        return None
+    types = {}
+    body = []
+    for st in v.body():
+        if st[0] == 'decl' and st[2] is not None and st[2][0] == 'ctor' and not st[2][2] and vecshape(st[2][1] or ''):
+            st = ('decl', st[1], st[2], st[2][1])          # the type as resolved, not the local alias it was written with
+        if st[0] == 'decl' and len(st) > 3:
+            types[st[1]] = st[3]
+        body.append(st)
+
+    def view(x):
+        while x[0] == 'ctor' and (x[1] or '').endswith('*') and len(x[2]) == 1:
+            x = x[2][0]
+        return x
+    out = []
+    for st in body:
+        c = st[1] if st[0] == 'expr' else None
+        if c is not None and c[0] == 'call' and c[1] == 'transform' and len(c[2]) == 4 and c[2][3][0] == 'lambda' and c[2][3][1] == 1:
+            first, last, dst, fn = c[2]
+            last = fold_consts(last)
+            if not (last[0] == 'b' and last[1] == '+' and last[2] == first and last[3][0] == 'lit' and last[3][1].denominator == 1):
+                return None
+            src, dstv = view(first), view(dst)
+            shs, shd = shape_of(src), shape_of(dstv)
+            cnt = int(last[3][1])
+            if src == first or dstv == dst or shs is None or shd is None or shs['n'] != cnt or shd['n'] != cnt:
+                return None         # the range is exactly the N components of the source, the destination has N components too
+            for k in range(cnt):
+                arg = ('idx', src, ('lit', Fraction(k)))
+                val = map_terms(fn[2], lambda y, a=arg: a if y == ('lp', 0) else y)
+                out.append(('expr', ('asg', '=', ('idx', dstv, ('lit', Fraction(k))), val)))
+            continue
+        out.append(st)
+    out = unroll(out)
+    if any(st[0] not in ('decl', 'expr', 'ret') for st in out):
+        return None
+
+    def comp(x):
+        if x[0] == 'idx' and x[2][0] == 'lit' and x[2][1].denominator == 1:
+            base = x[1]
+            sh = shape_of(base) if base[0] in ('p', 'v') else None
+            if sh is not None and isinstance(sh['n'], int) and 0 <= int(x[2][1]) < sh['n']:
+                return ('m', base, COMPS[int(x[2][1])])
+        return x
+    out = [map_terms(st, comp) for st in out]
+
+    def fields_of(ty):
+        sh = vecshape(ty or '')
+        return tuple(COMPS[:sh['n']]) if (sh is not None and isinstance(sh['n'], int)) else None
+    t = straightline(out, fields_of, v.byref)
+    if t is None or t[0] != 'ctor' or fields_of(t[1]) is None or len(t[2]) != len(fields_of(t[1])):
+        return None
+    if any(x[0] == 'm' and x[1][0] == 'ctor' and not x[1][2] for x in t[2]):
+        return None                 # a component that was never assigned
+    return t
 
 
 def vec_operands(s, with_this=False):
@@ -616,6 +690,53 @@ def fam_mixed(res, s, v, tu, f):
         return
     S = vs['elem']
     core = unwrap(t, V)
+    if core[0] == 'ctor' and core[1] == V and isinstance(vs['n'], int) and vs['n'] > 1 and len(core[2]) == vs['n']:
+        # the promoted result computed component by component: slot k must be S(a.k) op S(b.k) (a scalar operand: S(b)), the
+        # operation applied to operands that were converted to the common element type first
+        aliases = {S}
+        for nd in tu.walk(tu.body(f)):
+            if nd.get('kind') in ('TypeAliasDecl', 'TypedefDecl'):
+                ty = nd.get('type') or {}
+                if tkey(ty.get('desugaredQualType') or ty.get('qualType') or '') == S or tkey(ty.get('qualType') or '') == S:
+                    aliases.add(nd.get('name'))
+        for k, slot in enumerate(core[2]):
+            c = COMPS[k]
+            x = slot
+            while x[0] == 'ctor' and x[1] in aliases and len(x[2]) == 1:
+                x = x[2][0]
+            if x[0] != 'b':
+                res.und(R4, 'component %s of the result is not `convert(a.%s) %s convert(b.%s)`: %s' % (c, c, op, c, show(slot, s.names)))
+                return
+            sides = []
+            for i, side in enumerate((x[2], x[3])):
+                y, converted = side, False
+                while y[0] == 'ctor' and y[1] in aliases and len(y[2]) == 1:
+                    y, converted = y[2][0], True
+                if not f['dep'] and not converted:
+                    have = s.params[i]['sh']['elem'] if s.params[i]['k'] == 'vec' else tkey(s.params[i]['ct'])
+                    converted = (tclean(have) == S)
+                if y[0] == 'm' and y[1][0] == 'p' and y[1][1] < len(s.params) and s.params[y[1][1]]['k'] == 'vec' and y[2] in COMPS:
+                    if y[2] != c:
+                        res.bad(R4, 'component %s of the result reads component %s of operand `%s`' % (c, y[2], s.names[y[1][1]]),
+                                'operation')
+                        return
+                    y = y[1]
+                sides.append((y, converted))
+            exp = ('b', op, ('p', 0), ('p', 1))
+            got = ('b', x[1], sides[0][0], sides[1][0])
+            r = compare(got, exp, s.names)
+            if r is not None:
+                dec, desc, kinds = r
+                msg = 'mixed-type `%s`: component %s computes `%s` on the converted operands instead of `%s`: %s' % (
+                    s.name, c, show(got, s.names), show(exp, s.names), desc)
+                (res.bad(R4, msg, 'operation') if dec else res.und(R4, msg))
+                return
+            # (an operand left unconverted is not an error here: the built-in operator on components of types T and U computes in
+            #  decltype(T() op U()) = S by the usual arithmetic conversions, with or without the explicit S(...))
+        res.vector_level = False
+        res.ok(R4, 'per component: %s(a.<k>) %s %s(b%s), k over the %d components in order' % (
+            S, op, S, '.<k>' if s.params[1]['k'] == 'vec' else '', vs['n']))
+        return
     if core[0] != 'b':
         res.und(R4, 'result is not `convert(a) %s convert(b)`: %s' % (op, show(t, s.names)))
         return
@@ -1818,6 +1939,10 @@ def analyse(ctx, tu, label='', ir=None):
         decided = all(it[0] == 'ok' for it in res.items)
         if level == 'typed' and pat is not f:
             typed_ok.setdefault(pat['id'], []).append(decided)
+        if level == 'typed' and not label:
+            aid = ir_cover_arith(s)
+            if aid is not None:
+                ctx._c04_astcov.setdefault(aid, []).append(decided)
         names_called = set()
         try:
             names_called = calls_in(tuple(v.body())) | (inl.used_names if inl else set())
@@ -1895,7 +2020,10 @@ def typed_callee_check(res, s, v, tu, f, fam):
     inlined = getattr(getattr(v, 'inl', None), 'used_names', set())
     for name, q, node in v.callees:
         if name in inlined or '(anonymous class)::operator()' in (q or '') or '(lambda at ' in (q or '') or (
-                name == 'operator[]' and '::vec_t<' in (q or '')):     # element access is a view (R-C04-5), not an operation
+                name == 'operator[]' and '::vec_t<' in (q or '')) or (
+                name.startswith('operator ') and name.rstrip().endswith('*') and '::vec_t<' in (q or '')) or (
+                name == 'transform' and (q or '') == 'std::transform' and single_return(v) is not None):
+            # element access / pointer view are views (R-C04-5), std::transform over them is expanded per component: not operations
             continue          # a helper / lambda whose body was inlined: its own callees are in the list
         cf_params = []
         sd = tu.sd(node)
@@ -2026,7 +2154,25 @@ def _ndelta(cases):
     return len(names)
 
 
-def ir_identities(ctx, rule, unit, anchor_file, minimum, precondition=None, single_rounding=True):
+def ir_cover_arith(s):
+    """identity id of the ARITH block of drivers/c04_alg_vec.cpp that exercises this typed same-type operator, or None"""
+    if s.rec or not s.params or any(p['k'] not in ('vec', 'scalar') for p in s.params):
+        return None
+    kinds = ''.join('v' if p['k'] == 'vec' else 's' for p in s.params)
+    pre = {('operator-', 'v'): 'neg', ('operator+', 'vv'): 'add_vv', ('operator-', 'vv'): 'sub_vv', ('operator*', 'vv'): 'mul_vv',
+           ('operator/', 'vv'): 'div_vv', ('operator/', 'vs'): 'div_vs', ('operator/', 'sv'): 'div_sv'}.get((s.name, kinds))
+    vp = [p for p in s.params if p['k'] == 'vec']
+    if pre is None or not vp:
+        return None
+    sh = vp[0]['sh']
+    if any(p['sh'] != sh for p in vp) or not isinstance(sh['n'], int) or not isinstance(sh['a'], bool) or sh['elem'] not in IR_TYPES:
+        return None
+    if sh['a'] and sh['n'] != 3:
+        return None
+    return '%s_%s%d%s' % (pre, IR_TYPES[sh['elem']], sh['n'], 'a' if sh['a'] else '')
+
+
+def ir_identities(ctx, rule, unit, anchor_file, minimum, precondition=None, single_rounding=True, defer_fragment=None):
     """IR cross-check: every L_<id> (through the rkcommon API) must have the same irnorm summary as R_<id> (the
     per-component scalar definition written in the driver)"""
     from rkstatic import irnorm
@@ -2056,7 +2202,11 @@ def ir_identities(ctx, rule, unit, anchor_file, minimum, precondition=None, sing
             A = mod.function(ln).summary().outs()
             B = mod.function('R_' + ident).summary().outs()
         except irnorm.Undecided as e:
-            ctx.undecided(rule, inst, 'outside the decided IR fragment: %s' % e, loc)
+            if defer_fragment is not None:
+                defer_fragment.append((ident, inst, loc, str(e)))
+                status[ident] = 'fragment'
+            else:
+                ctx.undecided(rule, inst, 'outside the decided IR fragment: %s' % e, loc)
             continue
         n += 1
         key = '%s|%s|%s|' % (rule, anchor_file, ident)
@@ -2305,10 +2455,22 @@ def run(ctx):
         jobs.append(dict(unit='drivers/c04_vec.cpp', config='TBB', std='gnu++17'))
         jobs.append(dict(unit='drivers/c04_vec.cpp', config='DEBUG', simd=False))
     tus = ctx.front.parse_many(jobs)
-    ir = ir_identities(ctx, R6, 'drivers/c04_alg_vec.cpp', VEC_H, 400) or {}
+    deferred_ir = []
+    ctx._c04_astcov = {}
+    ir = ir_identities(ctx, R6, 'drivers/c04_alg_vec.cpp', VEC_H, 400, defer_fragment=deferred_ir) or {}
     for i, tu in enumerate(tus):
         label = '' if i == 0 else ' ' + ('%s%s' % (jobs[i].get('std', ''), '' if jobs[i].get('simd', True) else 'NO_SIMD'))
         fams, fams_typed, uncl, n_pat, n_typed, covered, by_loc = analyse(ctx, tu, label, ir)
+        if i == 0:
+            # identities whose IR is outside the fragment irnorm decides (not evidence either way): the operator they exercise
+            # stands on the verdict of its typed AST instantiation - ok only if that instantiation is decided
+            for ident, iinst, iloc, why in deferred_ir:
+                st = ctx._c04_astcov.get(ident, [])
+                if st and all(st):
+                    ctx.ok(R6, iinst, 'the IR of this instantiation is outside the fragment the value-graph comparison decides (%s); the '
+                                      'operator it exercises is decided on its typed AST instantiation (R-C04-1/2) instead' % why[:120], iloc)
+                else:
+                    ctx.undecided(R6, iinst, 'outside the decided IR fragment: %s' % why, iloc)
         nl = check_layout(ctx, tu)
         nres = check_driver_resolution(ctx, tu)
         nlerp = check_lerp(ctx, tu)
